@@ -79,6 +79,15 @@ Theorem C19_reset_after_success :
 Proof. exact reset_after_success. Qed.
 Print Assumptions C19_reset_after_success.
 
+(* ... and this does not depend on which pump of Dial noticed that the connection was lost: Dial
+   returns nil however an established connection ends (reader saw it, a write failed, cancelled),
+   and a run in which every drop is noticed by the WRITER is the same run, under every cancellation *)
+Theorem C19_reset_whichever_pump_notices :
+  (forall e, dial_returns_error e = false) /\
+  (forall l c sch cp, client l c (sched_to_writer sch) cp = client l c sch cp).
+Proof. exact reset_whichever_pump_notices. Qed.
+Print Assumptions C19_reset_whichever_pump_notices.
+
 Theorem C19_success_resets_state :
   forall l c s carry ab,
     cancelled s = false -> fails l ab = false ->
@@ -175,6 +184,8 @@ Example C19_witness :
   map ev_out (client LPlain c [(AOk, Down); (AOk, AcceptThenHang 2); (AOk, Down)] None) = [OWsFail; OConnected 2] /\
   map ev_out (client LPlain c [(AOk, Down); (AOk, AcceptThenHang 2); (AOk, Down)] (Some (1%nat, CConn 2))) = [OWsFail; OConnected 2] /\
   reaches_close false [DSendClose; DAwaitPeer; DCloseConn] = false /\
+  map ev_wait (client LPlain c [(AOk, Down); (AOk, Down); (AOk, Down); (AOk, AcceptThenDropW 1); (AOk, Down); (AOk, Down)] None) =
+    [0; 40000000; 80000000; 160000000; 0; 40000000] /\
   fresh LAuth (firstn 6 sch) /\
   pump_run (pumps_init [1;2;3]%N [7;8]%N) [PWrite; PRead; PRead; PWrite; PWrite] =
     mkpumps [3]%N [1;2]%N [] [7;8]%N.
